@@ -36,6 +36,11 @@ type TypedefSpec struct {
 	Doc         string
 
 	root TypeSpec
+
+	// rootPending is set if the typedef was linked while its target was a
+	// typedef whose own root was not known yet. RootTypeSpec then works the
+	// root out when it is asked for.
+	rootPending bool
 }
 
 // compileTypedef compiles the given Typedef AST into a TypedefSpec.
@@ -78,6 +83,7 @@ func (t *TypedefSpec) Link(scope Scope) (TypeSpec, error) {
 	t.Target, err = t.Target.Link(scope)
 	if err == nil {
 		t.root = RootTypeSpec(t.Target)
+		t.rootPending = t.root == nil
 	}
 	return t, err
 }
